@@ -73,6 +73,9 @@ def r1(ctx, osc, wk):
       if isinstance(st.value, ast.BinOp) and isinstance(st.value.op, ast.Sub):
         l, r = U(st.value.left), U(st.value.right)
         kind[t.id] = 'DIFF:%s-%s' % (kind.get(l, '?'), kind.get(r, '?'))
+      elif isinstance(st.value, ast.Call) and call_attr(st.value) == 'difference' and len(st.value.args) == 1:
+        l, r = U(st.value.func.value), U(st.value.args[0])
+        kind[t.id] = 'DIFF:%s-%s' % (kind.get(l, '?'), kind.get(r, '?'))
       elif reads_nodes and not [k for k in names_in if kind.get(k) == 'NEW']:
         kind[t.id] = 'OLD'
         ctx.ob('C19.R1', osc, 'old baseline captured before it is replaced', base_write_line is None,
@@ -150,11 +153,14 @@ def r2(ctx, cls, wk):
       for st in ast.walk(ll[0]):
         if isinstance(st, ast.Assign) and st.value is pops[0]:
           var = U(st.targets[0])
-      okc = False
-      for n in ast.walk(ll[0]):
-        if isinstance(n, ast.If) and U(n.test) in (var, '%s is not None' % var):
-          okc = any(isinstance(c, ast.Call) and call_attr(c) == '_on_leave' and U(c.args[0]) == var for x in n.body for c in ast.walk(x))
-      ctx.ob('C19.R2', wk, 'leave announced only for a member that was announced', okc, 'leave is not guarded by the popped member', why)
+      okc = var is not None
+      n_call = 0
+      for ev, ex in enum_paths(ctx, wk, body=ll[0].body):
+        for i, e in enumerate(ev):
+          if e.kind == 'call' and call_attr(e.node) == '_on_leave':
+            n_call += 1
+            okc = okc and [U(a) for a in e.node.args] == [var] and (var, True) in FACTS(ev[:i])
+      ctx.ob('C19.R2', wk, 'leave announced only for a member that was announced', okc and n_call >= 1, 'leave is not guarded by the popped member', why)
   if len(jl) == 1:
     it = U(jl[0].iter)
     src = [st for st in ast.walk(wk.node) if isinstance(st, ast.Assign) and U(st.targets[0]) == it]
